@@ -197,54 +197,63 @@ def poisons (G : Guards) (ru : RU) : Bool :=
 
 def poison (sh : Shared) (b : Bool) : Shared := if b then { sh with poisoned := true } else sh
 
+/-- the allow-list refuses `rid` -/
+def notAllowed (B : Backend) (rid : Bytes) : Bool :=
+  match B.allowed with
+  | some l => !l.contains rid
+  | none => false
+
+def connected (sh : Shared) (rid : Bytes) : Bool := sh.connections.contains rid
+
+/-- the handshake decision: the first routing update of a session announces the peer -/
+def admitPeer (G : Guards) (B : Backend) (sh : Shared) (s : Sess) (ru : RU) : Shared × Sess × Out :=
+  let rid := ru.fwd
+  if rid = sh.self then (sh, { s with remoteID := rid }, .ended true)
+  else if G.emptyPeerID && rid = [] then (sh, { s with remoteID := rid }, .ended true)
+  else if notAllowed B rid then
+    (sh, { s with remoteID := rid }, .ended true)
+  else
+    let cost := (lookup B.nodeCost rid).getD B.cost
+    if connected sh rid then (sh, { s with remoteID := rid, cost := cost }, .ended true)
+    else ({ sh with connections := sh.connections ++ [rid] },
+          { s with remoteID := rid, cost := cost, established := true }, .established)
+
+/-- the checks an established session applies to every routing update of its peer -/
+def checkPeer (G : Guards) (sh : Shared) (s : Sess) (ru : RU) : Shared × Sess × Out :=
+  if ru.fwd ≠ s.remoteID then (removeConn sh s.remoteID, s, .ended true)
+  else if ru.nodeID = s.remoteID then
+    match ru.conns.bind fun l => lookup l sh.self with
+    | none =>
+      if s.remoteEstablished then (removeConn sh s.remoteID, s, .ended true)
+      else (sh, s, .continue_)
+    | some c =>
+      if c ≠ s.cost then (removeConn sh s.remoteID, { s with remoteEstablished := true }, .ended true)
+      else (poison sh (poisons G ru), { s with remoteEstablished := true }, .continue_)
+  else (poison sh (poisons G ru), s, .continue_)
+
 /-- one received datagram -/
 def step (G : Guards) (B : Backend) (sh : Shared) (s : Sess) (d : Dgram) : Shared × Sess × Out :=
   match d with
   | .empty => if G.emptyDatagram then (sh, s, .continue_) else (sh, s, .panic)
-  | d =>
-  if s.established then
-    match d with
-    | .data .pingLoop => if G.pingFromPing then (sh, s, .continue_) else (sh, s, .fatal)
-    | .data _ => (sh, s, .continue_)
-    | .route body =>
-      match decodeRU body with
-      | none => (sh, s, .continue_)
-      | some ru =>
-        if ru.fwd ≠ s.remoteID then (removeConn sh s.remoteID, s, .ended true)
-        else if ru.nodeID = s.remoteID then
-          match ru.conns.bind fun l => lookup l sh.self with
-          | none =>
-            if s.remoteEstablished then (removeConn sh s.remoteID, s, .ended true)
-            else (sh, s, .continue_)
-          | some c =>
-            if c ≠ s.cost then (removeConn sh s.remoteID, { s with remoteEstablished := true }, .ended true)
-            else (poison sh (poisons G ru), { s with remoteEstablished := true }, .continue_)
-        else (poison sh (poisons G ru), s, .continue_)
-    | .advert body wt =>
-      match decodeAd body wt with
-      | .err => (sh, s, .continue_)
-      | .nilEmbedded => if G.adNilEmbedded then (sh, s, .continue_) else (sh, s, .panic)
-      | .ok => (sh, s, .continue_)
-    | .reject => (removeConn sh s.remoteID, s, .ended false)
-    | _ => (sh, s, .continue_)
-  else
-    match d with
-    | .route body =>
-      match decodeRU body with
-      | none => (sh, s, .continue_)
-      | some ru =>
-        let rid := ru.fwd
-        if rid = sh.self then (sh, { s with remoteID := rid }, .ended true)
-        else if G.emptyPeerID && rid = [] then (sh, { s with remoteID := rid }, .ended true)
-        else if (match B.allowed with | some l => !l.contains rid | none => false) then
-          (sh, { s with remoteID := rid }, .ended true)
-        else
-          let cost := (lookup B.nodeCost rid).getD B.cost
-          if sh.connections.contains rid then (sh, { s with remoteID := rid, cost := cost }, .ended true)
-          else ({ sh with connections := sh.connections ++ [rid] },
-                { s with remoteID := rid, cost := cost, established := true }, .established)
-    | .reject => (removeConn sh s.remoteID, s, .ended false)
-    | _ => (sh, s, .continue_)
+  | .data k =>
+    if s.established then
+      (match k with
+       | .pingLoop => if G.pingFromPing then (sh, s, .continue_) else (sh, s, .fatal)
+       | _ => (sh, s, .continue_))
+    else (sh, s, .continue_)
+  | .route body =>
+    match decodeRU body with
+    | none => (sh, s, .continue_)
+    | some ru => if s.established then checkPeer G sh s ru else admitPeer G B sh s ru
+  | .advert body wt =>
+    if s.established then
+      (match decodeAd body wt with
+       | .err => (sh, s, .continue_)
+       | .nilEmbedded => if G.adNilEmbedded then (sh, s, .continue_) else (sh, s, .panic)
+       | .ok => (sh, s, .continue_))
+    else (sh, s, .continue_)
+  | .reject => (removeConn sh s.remoteID, s, .ended false)
+  | .other => (sh, s, .continue_)
 
 /-- the session's transport ends (EOF, error, idle time-out, shutdown): `runProtocol` returns
 through `case <-ci.Context.Done()` and forgets the connection -/
